@@ -117,7 +117,40 @@ OUT = "messages_normalized"
 ALLOC = lambda L: f"forall(0, len({L}), lambda w: allocated({L}[w]))"
 NORM_DUR = f"wsum({OUT}, len({OUT}))"
 NORM_INV = [("own_list", f"fresh({OUT}) and allocated({OUT})"), ("wf", WF_REL(OUT)), ("allocated", ALLOC(OUT))]
+def LASTI(L, k, t):
+    return f"lastidx({L}, {k}, '{t}')"
+
+
+def TSD(L):
+    """a time signature kept in L differs from the time signature kept before it (the one in force)"""
+    p = LASTI(L, "b", "TIME_SIGNATURE")
+    return (f"forall(0, len({L}), lambda b: implies({IS(L + '[b]', 'TIME_SIGNATURE')} and {p} >= 0,"
+            f" {L}[{p}].numerator != {L}[b].numerator or {L}[{p}].denominator != {L}[b].denominator))")
+
+
+def KSD(L):
+    p = LASTI(L, "b", "KEY_SIGNATURE")
+    return f"forall(0, len({L}), lambda b: implies({IS(L + '[b]', 'KEY_SIGNATURE')} and {p} >= 0, {L}[{p}].key != {L}[b].key))"
+
+
+LT, LK = LASTI(OUT, f"len({OUT})", "TIME_SIGNATURE"), LASTI(OUT, f"len({OUT})", "KEY_SIGNATURE")
+SIG_INV = [("ts_in_force", f"implies({LT} < 0, is_none(current_ts_numerator) and is_none(current_ts_denominator))"
+                           f" and implies({LT} >= 0, not is_none(current_ts_numerator) and not is_none(current_ts_denominator)"
+                           f" and current_ts_numerator == {OUT}[{LT}].numerator and current_ts_denominator == {OUT}[{LT}].denominator)"),
+           ("ks_in_force", f"implies({LK} < 0, is_none(current_key)) and implies({LK} >= 0, not is_none(current_key) and current_key == {OUT}[{LK}].key)"),
+           ("ts_dedupe", TSD(OUT)), ("ks_dedupe", KSD(OUT)),
+           # ... and it is the signature in force in the consumed input prefix: a signature that differs from the one in force is never dropped
+           ("ts_follows_input", f"implies({LASTI(M, 'i', 'TIME_SIGNATURE')} < 0, is_none(current_ts_numerator))"
+                                f" and implies({LASTI(M, 'i', 'TIME_SIGNATURE')} >= 0, current_ts_numerator == {M}[{LASTI(M, 'i', 'TIME_SIGNATURE')}].numerator"
+                                f" and current_ts_denominator == {M}[{LASTI(M, 'i', 'TIME_SIGNATURE')}].denominator)"),
+           ("ks_follows_input", f"implies({LASTI(M, 'i', 'KEY_SIGNATURE')} < 0, is_none(current_key))"
+                                f" and implies({LASTI(M, 'i', 'KEY_SIGNATURE')} >= 0, current_key == {M}[{LASTI(M, 'i', 'KEY_SIGNATURE')}].key)")]
+LMT, LMK = LASTI(M, f"len({M})", "TIME_SIGNATURE"), LASTI(M, f"len({M})", "KEY_SIGNATURE")
+IN_FORCE_KEPT = (f"implies({LMT} >= 0, {LT} >= 0 and {OUT}[{LT}].numerator == {M}[{LMT}].numerator and {OUT}[{LT}].denominator == {M}[{LMT}].denominator)"
+                 f" and implies({LMK} >= 0, {LK} >= 0 and {OUT}[{LK}].key == {M}[{LMK}].key)")
 contract("RelativeSequence.normalise_relative", params={"self": "ref:RelativeSequence"}, allocates=True,
+         asserts=[("repeated_signatures_dropped", "for channel in open_messages.keys()", TSD(OUT) + " and " + KSD(OUT)),
+                  ("signature_in_force_kept", "for channel in open_messages.keys()", IN_FORCE_KEPT)],
          requires=[WF_REL()],
          local_types={"open_messages": "absdict:absdict:list:ref:Message", OUT: "list:ref:Message"},
          dict_inv={"open_messages": "lambda v: forall(0, len(v), lambda q: not is_none(v[q].message_type) and v[q].message_type == MessageType.NOTE_ON)"},
@@ -127,7 +160,7 @@ contract("RelativeSequence.normalise_relative", params={"self": "ref:RelativeSeq
          loops={
              "L0": dict(fingerprint="for msg in self._messages", inv=NORM_INV + [
                  ("duration", f"{NORM_DUR} + wait_buffer == wsum({M}, i) and wait_buffer >= 0"),
-                 ("unvisited", f"forall(0, len({OUT}), lambda a: forall(i, len({M}), lambda b: {OUT}[a] != {M}[b]))")]),
+                 ("unvisited", f"forall(0, len({OUT}), lambda a: forall(i, len({M}), lambda b: {OUT}[a] != {M}[b]))")] + SIG_INV),
              "L1": dict(fingerprint="for channel in open_messages.keys()", inv=NORM_INV + [("duration", f"{NORM_DUR} == entry({NORM_DUR})")]),
              "L2": dict(fingerprint="for key in open_messages[channel].keys()", inv=NORM_INV + [("duration", f"{NORM_DUR} == entry({NORM_DUR})")]),
              "L3": dict(fingerprint="for msg in note_list", inv=NORM_INV + [("duration", f"{NORM_DUR} == entry({NORM_DUR})")]),
